@@ -291,7 +291,9 @@ func (s *Storer) NewFromOAuth2(ctx context.Context, provider string, details map
 	uid := details["uid"]
 	pid := authboss.MakeOAuth2PID(provider, uid)
 	if u, ok := s.Users[pid]; ok {
-		return s.wrap(u.clone()).(authboss.OAuth2User), nil
+		c := u.clone()
+		c.OAuth2UID = uid // the provider's details are authoritative
+		return s.wrap(c).(authboss.OAuth2User), nil
 	}
 	u := &User{PID: pid, Email: uid + "@oauth.test", OAuth2UID: uid, Confirmed: details["confirmed"] != "false"}
 	return s.wrap(u).(authboss.OAuth2User), nil
